@@ -353,7 +353,11 @@ impl Incremental {
 
 fn random_op(x: &Exec, rng: &mut Rng, longs: &[&str], shorts: &[&str]) -> Value {
   let pick_str = |rng: &mut Rng| -> String {
-    if rng.below(4) == 0 {
+    if rng.below(14) == 0 {
+      // the first segment of the bundled library's module names (`PStr::STD`): module references that start
+      // with it take no other route through the heap than any other, and must not
+      "std".to_string()
+    } else if rng.below(4) == 0 {
       shorts[rng.below(shorts.len())].to_string()
     } else {
       longs[rng.below(longs.len())].to_string()
@@ -375,7 +379,13 @@ fn random_op(x: &Exec, rng: &mut Rng, longs: &[&str], shorts: &[&str]) -> Value 
       let live = x.live_handles();
       if !live.is_empty() {
         let n = 1 + rng.below(2);
-        let parts: Vec<Value> = (0..n).map(|_| live[rng.below(live.len())].clone()).collect();
+        let mut parts: Vec<Value> = (0..n).map(|_| live[rng.below(live.len())].clone()).collect();
+        // one in three: `std` first (when a handle of it was issued), then one or two segments of any kind
+        if rng.chance(1, 3) {
+          if let Some((h, _, _)) = x.issued.iter().find(|(_, s, _)| s == "std") {
+            parts.insert(0, h.clone());
+          }
+        }
         return json!({"op": "AllocModuleRef", "parts": parts});
       }
     } else if k < 50 {
